@@ -13,7 +13,8 @@ Definition mp_of (q : quad) : mparams :=
 
 Inductive meta_obs :=
 | MMut (idx : N) (expl : bool) (inp : quad) (outs : list quad)
-| MSel (idx : N) (pbits : Z) (n : nat) (counts : list N).
+| MSel (idx : N) (pbits : Z) (n : nat) (counts : list N)
+| MBench (idx : N) (prob : nat) (nc : N) (f0 fbest : Z).
 
 (** ** meta_adapt: what [mutate] can return for SOME factors in [floor, ceil] (necessary
     condition: multiplication and [min] are monotone, the input is non-negative) *)
@@ -72,6 +73,18 @@ Definition sel_mon (pbits : Z) (n : nat) (counts : list N) : bool :=
   (* pressure 1: always the best-ranked *)
   (negb (Z.eqb pbits 0x3FF0000000000000) || forallb (N.eqb 0) (tl counts)).
 
+(** ** benchmark battery (C17): improvement factors required of the three real-valued problems
+    (sphere 1-d: 20x, sphere 5-d: 10x, badly scaled: 100x; the worst ratios seen over 120 completion
+    orders on the unchanged tree were 4e-4, 2e-3 and 6e-5); the discrete problems (optimum on a
+    bound, integer grid, one-max, map size, variant/enum choice) must reach the known optimum 0 *)
+Definition bench_ok (prob : nat) (f0 fb : f64) : bool :=
+  match prob with
+  | 0%nat => fle fb (fmul f0 (of_bits 0x3FA999999999999A))   (* 0.05 *)
+  | 1%nat => fle fb (fmul f0 (of_bits 0x3FB999999999999A))   (* 0.1 *)
+  | 2%nat => fle fb (fmul f0 (of_bits 0x3F847AE147AE147B))   (* 0.01 *)
+  | _ => feq fb fzero
+  end.
+
 Local Open Scope string_scope.
 Definition judge_meta (o : meta_obs) : string :=
   match o with
@@ -84,4 +97,7 @@ Definition judge_meta (o : meta_obs) : string :=
   | MSel idx pbits n counts =>
       "META idx=" ++ N2s idx ++ " acc=" ++ (if sel_acc pbits n counts then "ok" else "rej/selection") ++
       " C14=1 C15=1 C17=" ++ b2s (sel_mon pbits n counts) ++ " END"
+  | MBench idx prob nc f0 fb =>
+      "META idx=" ++ N2s idx ++ " acc=ok C14=1 C15=" ++ b2s (negb (fnan (of_bits fb))) ++
+      " C17=" ++ b2s (bench_ok prob (of_bits f0) (of_bits fb)) ++ " END"
   end.
